@@ -44,7 +44,8 @@ SIM_SCENARIO(scen_c15, "c15", "C15", 6000000, 30000) {
     rec.points = sim::draw_of(ptsv, "points");
     int kind = (int)sim::draw(11, "node");
     int threads = (int)sim::draw_range(1, 3, "putters");
-    int n = (int)sim::draw_range(1, 12, "messages");
+    static const int ncounts[] = {1, 2, 3, 4, 5, 6, 7, 8, 9, 10, 11, 12, 17, 20, 33, 40};
+    int n = sim::draw_of(ncounts, "messages");      // > 8 / > 16: item buffers wrap and grow with a non-zero head
     static const char* const kn[] = {"queue_node", "sequencer_node", "priority_queue_node", "join<queueing>", "join<key_matching>", "join<reserving>", "limiter_node", "overwrite_node", "write_once_node", "split/indexer", "buffer reservation"};
     d.add(hx::fmt("%s putters=%d messages=%d sink_points=%d", kn[kind], threads, n, rec.points));
     d.publish();
@@ -52,7 +53,12 @@ SIM_SCENARIO(scen_c15, "c15", "C15", 6000000, 30000) {
     function_node<int, continue_msg, queueing> sink(g, serial, [](int m) { return record(m); });
     switch (kind) {
     case 0: {   // queue_node: FIFO by acceptance order (per putter order is preserved; across putters by stamp of acceptance)
-        queue_node<int> q(g); make_edge(q, sink);
+        // the consumer is either a queueing sink (push mode) or a slow rejecting serial node (the queue keeps the
+        // items, the edge flips to pull mode, the ring buffer wraps while items leave one at a time)
+        bool pull = sim::draw_bool("rejecting_consumer");
+        function_node<int, int, rejecting> slow(g, serial, [](int m) { for (int i = 0; i < 6; ++i) sim::upoint(); return m; });
+        queue_node<int> q(g);
+        if (pull) { make_edge(q, slow); make_edge(slow, sink); } else make_edge(q, sink);
         auto msgs = split_msgs(n, threads, false);
         put_concurrently(q, msgs);
         g.wait_for_all();
